@@ -5,7 +5,7 @@ from . import skyb
 RULE = ("files of 0..6 blocks (types 0..255 incl. type 0, lengths 0..40 and a few up to 70000 clipped to 65535, "
         "versions 1/2, with/without/bad checksum, stray feature bits), every truncation point inside headers and a sample "
         "inside bodies, bad magic/version edits, files beyond 64 KiB and with more than 256 records, plus the repository fixtures and their truncations; each through the memory "
-        "and the descriptor route with a script walking all blocks (c,n), looking up several types (fK), reading bodies (b) "
+        "and the descriptor route with a script walking all blocks (c,n), walking until the walk fails and then looking up the first record's type and the types named by the stray bytes, looking up several types (fK), reading bodies (b) "
         "and taking views (x). Non-trivial = initialisation succeeded and at least one block was visible.")
 EXPLANATION = "model lines (extracted Coq parser model) and implementation lines must be identical token by token"
 ASSUMPTIONS = ["descriptor route exercised through memfd_create; read(2)/lseek(2) behave as for regular files"]
@@ -85,7 +85,13 @@ def cases(rng, tier):
         for c in sorted(cuts):
             d = data[:c]
             sc = scs[rng.randrange(len(scs))] if c != len(data) else None
-            for s in ([sc] if sc else scs):
+            extra = []
+            if sc and c >= 6:
+                # walk until the walk fails (a record header cut short leaves the cursor half updated), then look up the
+                # first record's type and the types the stray bytes at the end would name
+                t0 = bl[0][0] if bl else 1
+                extra = ["n,n,n,n,n,n,n,f%d,c,b,x,f%d,c,b,x,f%d,c,b,r,c,b" % (t0, d[-1], d[-2]), "f%d,n,f%d,c,b,n,f%d,c,b,x" % (t0, d[-1], t0)]
+            for s in ([sc] + extra if sc else scs):
                 for r in ("mem", "fd"):
                     yield ("file %s %s %s" % (r, hexs(d), s), klass + ("" if c == len(data) else "-cut"))
         # header edits
